@@ -44,6 +44,7 @@ type xlFunc struct {
 	Fuel    []string // per `for` loop that is not a range loop, in source order: Go expression (evaluated in the scope right before the loop) bounding the number of iterations
 	Opaque  []string // callees ("pkg.Name") that are NOT translated: they become parameters of the generated definition
 	Flatten bool     // method on a pointer-to-struct receiver: every selector chain `recv.a.b` becomes a parameter `recv_a_b` (assumes the chain is non-nil)
+	Rec     bool     // directly self-recursive: leading Nat fuel, see translate_rec.go
 	// --- translate_dom.go (composite algorithms over the DOM API) ---
 	Nullable []string // parameters of a DOM interface type that may be nil: `Option …` (all others are assumed non-nil)
 	NullRes  bool     // the (single, DOM-typed) result may be nil: `Option …`
@@ -67,16 +68,36 @@ var xlWhitelist = []xlFunc{
 	{Pkg: "props", Name: "replaceAt", Lean: "replaceAt"},
 	{Pkg: "props", Name: "matchAt", Lean: "matchAt", Fuel: []string{"len(substring)+1"}},
 	{Pkg: "props", Recv: "propImpl", Name: "findEndIndex", Lean: "findEndIndex", Fuel: []string{"len(buf)+1"}, Flatten: true},
+	{Pkg: "props", Recv: "propImpl", Name: "resolvePlaceholder", Lean: "resolvePlaceholder", Flatten: true},
+	{Pkg: "props", Recv: "propImpl", Name: "resolve", Lean: "resolve", Fuel: []string{"len(value)+1"}, Flatten: true, Rec: true},
+	{Pkg: "props", Recv: "propImpl", Name: "Resolve", Lean: "Resolve", Flatten: true},
 	{Pkg: "patch", Recv: "PathSegment", Name: "IsNumeric", Lean: "IsNumeric"},
 	{Pkg: "patch", Recv: "Path", Name: "Parent", Lean: "PathParent"},
 	{Pkg: "patch", Recv: "Path", Name: "LastSegment", Lean: "PathLastSegment"},
 	{Pkg: "patch", Recv: "Path", Name: "String", Lean: "PathString", Fuel: []string{"len(rps)+1"}},
+	{Pkg: "patch", Name: "ParsePath", Lean: "ParsePath", Fuel: []string{"len(rps)+1"}},
+	{Pkg: "patch", Name: "MustParsePath", Lean: "MustParsePath"},
 	{Pkg: "utils", Name: "ParseListPathComponent", Lean: "ParseListPathComponent", Fuel: []string{"len(path)+1"}},
 	{Pkg: "pipeline", Name: "strTruncIfNeeded", Lean: "strTruncIfNeeded"},
 	{Pkg: "pipeline", Name: "safeStrDeref", Lean: "safeStrDeref"},
 	{Pkg: "pipeline", Name: "nonEmpty", Lean: "nonEmpty"},
 	{Pkg: "pipeline", Name: "safeBoolDeref", Lean: "safeBoolDeref"},
 	{Pkg: "pipeline", Name: "safeStrListSize", Lean: "safeStrListSize"},
+	{Pkg: "pipeline", Name: "safeCopyIntSlice", Lean: "safeCopyIntSlice"},
+	// String() methods of the pipeline types [C15, brief mext7c]; hand-written counterparts in YtkModel/OpStrings.lean
+	{Pkg: "pipeline", Recv: "AbortOp", Name: "String", Lean: "AbortOp_String", Flatten: true},
+	{Pkg: "pipeline", Recv: "ExtOp", Name: "String", Lean: "ExtOp_String", Flatten: true},
+	{Pkg: "pipeline", Recv: "Html2DomOp", Name: "String", Lean: "Html2DomOp_String", Flatten: true},
+	{Pkg: "pipeline", Recv: "ImportOp", Name: "String", Lean: "ImportOp_String", Flatten: true},
+	{Pkg: "pipeline", Recv: "LogOp", Name: "String", Lean: "LogOp_String", Flatten: true},
+	{Pkg: "pipeline", Recv: "LoopOp", Name: "String", Lean: "LoopOp_String", Flatten: true},
+	{Pkg: "pipeline", Recv: "PatchOp", Name: "String", Lean: "PatchOp_String", Flatten: true},
+	{Pkg: "pipeline", Recv: "SetOp", Name: "String", Lean: "SetOp_String", Flatten: true},
+	{Pkg: "pipeline", Recv: "TemplateFileOp", Name: "String", Lean: "TemplateFileOp_String", Flatten: true},
+	{Pkg: "pipeline", Recv: "TemplateOp", Name: "String", Lean: "TemplateOp_String", Flatten: true},
+	{Pkg: "pipeline", Recv: "ExecOp", Name: "String", Lean: "ExecOp_String", Flatten: true},
+	{Pkg: "pipeline", Recv: "ValOrRef", Name: "String", Lean: "ValOrRef_String", Flatten: true},
+	{Pkg: "pipeline", Recv: "ActionMeta", Name: "String", Lean: "ActionMeta_String", Flatten: true},
 }
 
 // regular expressions: pattern text -> GoPrelude function deciding MatchString
@@ -117,6 +138,10 @@ type xlDone struct {
 	flat    []xlFlat // flattened-receiver parameters (in order): a caller passes its own parameter of the same key
 	nopaque int
 	sig     *types.Signature
+	// --- translate_rec.go ---
+	flatKeys  []string // flattened-receiver selector chains, in parameter order
+	flatTypes []string
+	rec       bool
 }
 
 type xlFlat struct {
@@ -211,7 +236,7 @@ func genFuncs(repo string) (string, error) {
 	hdr := "/- GENERATED by /verif/extract (translate.go) from the repository's sources — do not edit.\n" +
 		"   Shallow Go→Lean translation of the whitelisted functions over YtkModel/GoPrelude.lean.\n" +
 		"   Equivalence with the hand-written model: theorems `*_generated_eq_model` in YtkProps/Cxx.lean. -/\n" +
-		"import YtkModel.GoPrelude\n\nset_option linter.unusedVariables false\n\nnamespace Ytk.Generated.Funcs\nopen Ytk\n\n"
+		"import YtkModel.GoPrelude\nimport YtkModel.GoPreludeFmt\n\nset_option linter.unusedVariables false\n\nnamespace Ytk.Generated.Funcs\nopen Ytk\n\n"
 	return genFrom(repo, xlWhitelist, false, hdr, "end Ytk.Generated.Funcs\n")
 }
 
@@ -347,6 +372,8 @@ func (w *xlWorld) leanType(t types.Type) (string, error) {
 			return "", err
 		}
 		return "(Option " + e + ")", nil
+	case *types.Signature:
+		return w.sigType(x)
 	}
 	return "", fmt.Errorf("unsupported type %s", t.String())
 }
